@@ -23,7 +23,7 @@ FORMATS = {
 
 def build_batch(case):
     from depccg.tree import ScoredTree
-    return [[ScoredTree(gen_tree.tree_of_case(tc), -0.25 * (k + 1)) for k, tc in enumerate(sent)]
+    return [[ScoredTree(tr, -0.25 * (k + 1)) for k, tr in enumerate(gen_tree.sentence_trees(sent))]
             for sent in case['batch']]
 
 
@@ -101,11 +101,19 @@ def build_case(data):
     nsent = t.weighted([(3, 1), (2, 2), (1, 3)])
     batch = []
     for _ in range(nsent):
-        first = gen_tree.t_tree_case(t, system, max_leaves=5, tok_exclude='', ja_tokens=(system == 'ja'))
+        first = gen_tree.t_tree_case(t, system, max_leaves=5, tok_exclude='', ja_tokens=(system == 'ja'),
+                                      variants=True)
         sent = [first]
-        if t.chance(80):
-            other = dict(first)
-            sent.append(other)
+        if t.chance(90):
+            # a second tree of the n-best list over the same (shared) tokens, with other categories
+            n = len(first['tokens'])
+            other = None
+            for _try in range(4):
+                cand = gen_tree.t_tree_case(t, system, licensed=False, max_leaves=n, ja_tokens=(system == 'ja'))
+                if len(cand['tokens']) == n:
+                    other = dict(cand, tokens=first['tokens'])
+                    break
+            sent.append(other or dict(first))
         batch.append(sent)
     return {'system': system, 'batch': batch, 'formats': []}
 
